@@ -290,7 +290,7 @@ EXTRA_TEXT = {
     "C20": " Also: failures are bounded by max_validity; nothing is served at the instant of expiry and every Some(..) is on the fresh side (C20.exp); DS in the authority section is stripped for DO=0 (C20.strip); flag arguments of Key::new match their parameters (C20.key); Answer only for the queried type and class (C20.cls); no unwrap on the next item of a section (C20.total). Also (round 12): setters store into, getters read, the field of their name (C20.cfg); a derived entry is not valid for longer than its source (C20.age); a stored Ok response that cannot be rebuilt yields None, not an error (C20.replay). Also (round 15): a derived copy is stored under the requested key, never the altered one (C20.ownkey); a key is built only behind opcode == QUERY and class == IN (C20.gate); every validity is returned behind the TTL scan of all three sections (C20.cap).",
     "C12": " Also: DS digest input is canonical owner + canonical RDATA (C12.digest); RSA key length window is 1..=512 octets (C12.rsa); key tag reads all four fields and every key octet (C12.tag); canonical order == canonical form per field (C04.canon); every RFC 4034 6.2 type has a typed variant (C12.types, four known findings: AFSDB, RT, PX, KX). Also (round 11): SortedRecords adds a record only at a canonical binary-search index or sorts canonically before returning (C12.sorted); conversions keep every field (C05.conv). Also (round 14): signer's padding / DS digest context match the algorithm number (C12.algtab); length-first canonical order (C04.lenfirst). Also (round 18): character strings are sorted by length octet first (C04.charlen); validity periods are compared in serial arithmetic (C17.use).",
     "C14": " Also: the memoised signature verdict does not read the clock, the validity period is tested in front of the cache (C14.cache); no panicking Duration/Instant arithmetic (C14.panic); the signer handed to create_child_node is never an intermediate node (C14.signer); the signer name decides the zone only if the owner ends with it (C14.target); both callers of the wildcard non-existence check exclude name == *.<ce> (C14.wild); every answer-section RRset's state enters the verdict (C14.every); 'no SOA' is bogus only after the chain of trust was consulted (C14.nosoa); nsec3_in_range strict (C14.range); every chain link's state folded (C14.chain). Also (rounds 10-11): a denial record is used only if its signer equals the expected signer (C14.nsigner); a positive wildcard verdict rests on the wildcard's closest encloser (C14.wildce); validity returned with a verified signature is capped by ttl_for_sig of that signature (C14.sigttl); split_at(n) behind n <= len of the same slice (C14.split); DS algorithm and digest type judged on the same record (C14.dsusable); no secure NSEC3 verdict after an opt-out closest-encloser proof (path-sensitive, C14.optout); no expect on LongRecordData / on an OPT record rebuilt with upstream options (C14.panic). Also (round 12): supported_algorithm equals what every crypto backend verifies (C14.algs); QTYPE ANY finds its answer (C14.qany). Also (round 14): failed-signature limits agree (C14.badsigs); every DNAME / CNAME step is counted (C14.loopcount); the wildcard is read from the verified RRSIG (C14.wildsig). Also (round 18): names enter the signed data through compose_canonical only (C14.sigcanon).",
-    "C15": " Also: free-slot search sees the slot vacant (C15.slot); datagram receive loop waits against a per-attempt deadline (C15.dgdl); settable / applied timeout fields agree (C15.cfg); synthesized replies set QR (C15.synth); the stream timer restarts only for a matched message (C15.timer); check_stream compares the question (or sees it empty) in every state (typestate, C15.xfr); accepting a request never raises the timeout pending requests run under (C15.raise). Also (round 11): a new request does not restart a running response timer (C15.timer); synthesized replies carry the request's ID (C15.synth); the datagram transmission loop runs exactly max_retries + 1 times (linear form of the range, C15.budget). Also (round 13): the first message of a transfer has a question or is an error (path-sensitive, C15.xfr). Also (round 14): the datagram buffer is resized before every recv (C15.dgdl); replies already read are delivered before the reader's end is reported (C15.ans).",
+    "C15": " Also: free-slot search sees the slot vacant (C15.slot); datagram receive loop waits against a per-attempt deadline (C15.dgdl); settable / applied timeout fields agree (C15.cfg); synthesized replies set QR (C15.synth); the stream timer restarts only for a matched message (C15.timer); check_stream compares the question (or sees it empty) in every state (typestate, C15.xfr); accepting a request never raises the timeout pending requests run under (C15.raise). Also (round 11): a new request does not restart a running response timer (C15.timer); synthesized replies carry the request's ID (C15.synth); the datagram transmission loop runs exactly max_retries + 1 times (linear form of the range, C15.budget). Also (round 13): the first message of a transfer has a question or is an error (path-sensitive, C15.xfr). Also (round 14): the datagram buffer is resized before every recv (C15.dgdl); replies already read are delivered before the reader's end is reported (C15.ans). Also (round 18): an arm of the stream transport's select is disabled while a request is partly written (C15.wrguard).",
     "C17": " Also: the XFR interpreter's serial regression test is RFC 1982 '<' (C17.ixfr); Timestamp::scan reduces modulo 2^32 (C17.wrap). Also (round 11): no saturating / checked / plain addition on the raw value of a serial, new codec included (C17.use); the new codec's copy of to_system_time has the decision table of the established one (C17.port). Also (round 14): the new codec's Serial::inc wraps (C17.add). Also (round 18): Serial::from(jiff::Timestamp) is as_second() reduced modulo 2^32 and nothing else (C17.fromts).",
     "C01": " Also: unreachable!() behind a repeated match is unreachable (path-sensitive, C01.rematch); lossy-UTF-8 loops end on error_len() == None (C01.lossy); Clone impls of the message iterators copy every field (C01.clone). Shared with other checks: ParsedName's compressed flag (C03.flag) and the alphabet-index bound of the base16/32/64 encoders used by Display (C18.enc). Also (round 10): bitmap window lengths accepted are exactly 3..=34 (C01.window); caps computed in an inlined helper are recognised (accumulator_of). Also (round 12): MessageIter ends after a failed section change (C01.fuse); compression pointers are built with exactly 14 possible bits (C01.ptrmask); len() - k behind len >= k (C01.lensub). Also (round 15): a loop that discards a section step leaves on count = Err (C01.handloop); DigPrinter reaches no further section step after an unparsable item (C01.printer); SVCB list parameters are a multiple of their iterator's item size (C01.hintelem).",
     "C02": " Also: label sequences are compared with a length-aware equality (C02.seqeq); the parser's compressed flag (C03.flag). Also: each backward section conversion reaches rewind() of every later section and each rewind zeroes its own count (C02.rewind); header fields written in place by a builder inside a push closure are restored when the push fails (C02.hdr); skip and parse accept the same names (C01.skip). Thorough tier additionally builds compile-fail witnesses for the section typestates. Also (round 13): the section trait's push is the builder's own (C02.secfwd); the OPT option iterator continues while any octet remains (C02.optiter). Also (round 16): both writers of a name-compressing record type emit the fields in one order (C02.brorder); OptRecord::as_record and ::from_record agree on every TTL bit (C02.optttl).",
